@@ -6,7 +6,7 @@ package tunnel
 
 // C02: the tunnel end-blocker never returns an error (and keeps the module's store invariant)
 //@ func EndBlocker
-//@ modifies Store_tunnel, Bank, Other, RouteSent, Count_ProduceActiveTunnelPacket
+//@ modifies Store_tunnel, Bank, Other, RouteSent, TSSReqTunnel, TSSReqChain, TSSReqAddr, TSSReqContent, Count_ProduceActiveTunnelPacket
 //@ requires forall t Int :: keeper.wfTunnel(Store_tunnel, t) && keeper.wfLP(Store_tunnel, t)
 //@ ensures err == nil
 
